@@ -1,9 +1,296 @@
-import SynthVerif.Model.Adsr
-import SynthVerif.Model.Lfo
-import SynthVerif.Model.Quantizer
-import SynthVerif.Model.Midi
-import SynthVerif.Model.Glide
-import SynthVerif.Model.Ribbon
+import SynthVerif.Props.MidiLemmas
+/-!
+# C04 — MIDI gate and note number track the keys that are held
+
+Specification: `outstanding : List Nat`, the note-ons not yet cancelled.  A note-on (velocity > 0) on the listened
+channel appends its note, a note-off or zero-velocity note-on removes every entry with that note number,
+controller 123 (All-Notes-Off) empties the list; nothing else touches it.
+`tracks`: for every history in which at most 32 note-ons are outstanding after every event,
+  `held = outstanding`, `gate() = (outstanding ≠ [])`,
+  `note_num()` = the note selected from `outstanding` by the priority in force at the latest note message
+  (kept when the list empties), `velocity()` = velocity of the latest note-on / 127.
+`select_last/high/low`: what "selected by the priority" means (most recent / highest / lowest).
+-/
 namespace C04
-theorem placeholder_to_be_replaced : True := trivial
+open F32
+
+/-- the message an event delivers to the receiver, if any -/
+def msgOf (m : Midi) : MidiEv → Option MidiMsg
+  | .msg x => some x
+  | .byte b => (parserStep m.parser b).2
+  | _ => none
+
+structure Spec where
+  out : List Nat := []            -- outstanding note-ons, oldest first
+  note : Nat := 0
+  vel : F32 := zero
+  prio : NotePriority := .last
+
+/-- note selection: the same three rules as the property text, characterised below -/
+def select (p : NotePriority) (l : List Nat) : Nat := Midi.chooseFrom p l
+
+def Spec.onMsg (ch : Nat) (s : Spec) : MidiMsg → Spec
+  | .noteOn c n v =>
+    if c == ch then
+      if v == 0 then
+        let o := s.out.filter (· != n)
+        { s with out := o, note := if o.isEmpty then s.note else select s.prio o }
+      else
+        let o := s.out ++ [n]
+        { s with out := o, note := select s.prio o, vel := value7ToF32 v }
+    else s
+  | .noteOff c n _ =>
+    if c == ch then
+      let o := s.out.filter (· != n)
+      { s with out := o, note := if o.isEmpty then s.note else select s.prio o }
+    else s
+  | .controlChange c cc _ => if c == ch && cc == 123 then { s with out := [] } else s
+  | _ => s
+
+def Spec.step (ch : Nat) (s : Spec) (msg : Option MidiMsg) : MidiEv → Spec
+  | .setPriority p => { s with prio := p }
+  | .msg _ | .byte _ => match msg with
+    | some x => s.onMsg ch x
+    | none => s
+  | _ => s
+
+/-- the specification state after a history (the receiver is consulted only for its byte parser) -/
+def specAfter (ch : Nat) (m : Midi) (s : Spec) : List MidiEv → Spec
+  | [] => s
+  | e :: es => specAfter ch (m.stepEv e).1 (s.step ch (msgOf m e) e) es
+
+/-- at most 32 note-ons are outstanding after every event of the history -/
+def Bounded (ch : Nat) (m : Midi) (s : Spec) : List MidiEv → Prop
+  | [] => True
+  | e :: es => (s.step ch (msgOf m e) e).out.length ≤ 32 ∧ Bounded ch (m.stepEv e).1 (s.step ch (msgOf m e) e) es
+
+structure Rel (m : Midi) (s : Spec) : Prop where
+  held : m.held = s.out
+  gate : m.gate = !s.out.isEmpty
+  note : m.noteNum = s.note
+  vel : m.velocity = s.vel
+  prio : m.priority = s.prio
+  len : s.out.length ≤ 32
+
+theorem cap_32 : 32 ≤ Gen.heldLen := by decide
+theorem all_notes_off_is_123 : Midi.ccArm 123 = 8 := by decide
+theorem arm8_only_123 (cc : Nat) (h : Midi.ccArm cc = 8) : cc = 123 := by
+  unfold Midi.ccArm at h
+  repeat' split at h
+  all_goals first | omega | (rename_i h8; simpa [show Gen.ccAllNotesOff = 123 from rfl] using h8)
+
+private theorem gate_after_filter (l : List Nat) (n : Nat) :
+    (if (l.filter (· != n)).isEmpty then false else !l.isEmpty) = !(l.filter (· != n)).isEmpty := by
+  cases he : (l.filter (· != n)).isEmpty
+  · simp only [Bool.false_eq_true, ↓reduceIte, Bool.not_false]
+    cases l with
+    | nil => simp at he
+    | cons a as => rfl
+  · simp
+
+private theorem off_rel {m : Midi} {s : Spec} (h : Rel m s) (n : Nat) :
+    Rel (m.noteOff n)
+      { s with out := s.out.filter (· != n),
+               note := if (s.out.filter (· != n)).isEmpty then s.note else select s.prio (s.out.filter (· != n)) } := by
+  obtain ⟨hh, hg, hn, hv, hp, hl⟩ := h
+  have hle : (s.out.filter (· != n)).length ≤ 32 := Nat.le_trans (List.length_filter_le _ _) hl
+  constructor
+  · simp [Midi.noteOff, Midi.heldAfterOff, hh]
+  · simp only [Midi.noteOff, Midi.heldAfterOff, hh, hg]; exact gate_after_filter s.out n
+  · simp only [Midi.noteOff, Midi.heldAfterOff, hh, hn, hp, select]
+  · simp [Midi.noteOff, hv]
+  · simp [Midi.noteOff, hp]
+  · exact hle
+
+private theorem onMsg_rel {m : Midi} {s : Spec} (h : Rel m s) (x : MidiMsg)
+    (hb : (s.onMsg m.channel x).out.length ≤ 32) : Rel (m.handle x) (s.onMsg m.channel x) := by
+  obtain ⟨hh, hg, hn, hv, hp, hl⟩ := h
+  have hcap := cap_32
+  cases x <;> simp only [Midi.handle, Spec.onMsg] at hb ⊢
+  case noteOn c n v =>
+    by_cases hc : c = m.channel
+    · subst hc
+      by_cases hv0 : v = 0
+      · subst hv0
+        simp only [beq_self_eq_true, ↓reduceIte]
+        exact off_rel ⟨hh, hg, hn, hv, hp, hl⟩ n
+      · have hv' : (v == 0) = false := by simp [hv0]
+        simp only [beq_self_eq_true, ↓reduceIte, hv', Bool.false_eq_true, Midi.noteOn] at hb ⊢
+        have hb' : s.out.length + 1 ≤ 32 := by simpa using hb
+        have hlt : m.held.length < Gen.heldLen := by rw [hh]; omega
+        have ho : m.heldAfterOn n = s.out ++ [n] := by unfold Midi.heldAfterOn; rw [if_pos hlt, hh]
+        constructor
+        · simp [ho]
+        · simp [ho]
+        · simp [ho, select, hp]
+        · simp
+        · simp [hp]
+        · simpa using hb
+    · have : (c == m.channel) = false := by simp [hc]
+      simp only [this, Bool.false_eq_true, ↓reduceIte]
+      exact ⟨hh, hg, hn, hv, hp, hl⟩
+  case noteOff c n v =>
+    by_cases hc : c = m.channel
+    · subst hc
+      simp only [beq_self_eq_true, ↓reduceIte]
+      exact off_rel ⟨hh, hg, hn, hv, hp, hl⟩ n
+    · have : (c == m.channel) = false := by simp [hc]
+      simp only [this, Bool.false_eq_true, ↓reduceIte]
+      exact ⟨hh, hg, hn, hv, hp, hl⟩
+  case controlChange c cc v =>
+    by_cases hc : c = m.channel
+    · subst hc
+      by_cases h123 : cc = 123
+      · subst h123
+        simp only [beq_self_eq_true, ↓reduceIte, Bool.and_self, Midi.controlChange, all_notes_off_is_123]
+        constructor <;> simp_all
+      · have hne : (cc == 123) = false := by simp [h123]
+        have harm : (Midi.ccArm cc == 8) = false := by
+          cases h8 : (Midi.ccArm cc == 8)
+          · rfl
+          · exact absurd (arm8_only_123 cc (by simpa using h8)) h123
+        simp only [beq_self_eq_true, hne, Bool.and_false, Bool.false_eq_true, ↓reduceIte, Midi.controlChange, harm]
+        constructor <;> simp_all
+    · have : (c == m.channel) = false := by simp [hc]
+      simp only [this, Bool.false_eq_true, ↓reduceIte, Bool.false_and]
+      exact ⟨hh, hg, hn, hv, hp, hl⟩
+  case pitchBend c a b =>
+    split <;> (constructor <;> simp_all)
+  all_goals exact ⟨hh, hg, hn, hv, hp, hl⟩
+
+private theorem step_rel {m : Midi} {s : Spec} (h : Rel m s) (_hch : True) (e : MidiEv)
+    (hb : (s.step m.channel (msgOf m e) e).out.length ≤ 32) :
+    Rel (m.stepEv e).1 (s.step m.channel (msgOf m e) e) := by
+  cases e with
+  | msg x => exact onMsg_rel h x hb
+  | byte b =>
+    simp only [Midi.stepEv, Midi.parse, Spec.step, msgOf] at hb ⊢
+    cases hp : (parserStep m.parser b).2 with
+    | none =>
+      obtain ⟨hh, hg, hn, hv, hp', hl⟩ := h
+      constructor <;> simp_all
+    | some x =>
+      have h' : Rel { m with parser := (parserStep m.parser b).1 } s := by
+        obtain ⟨hh, hg, hn, hv, hp', hl⟩ := h
+        constructor <;> simp_all
+      simp only [hp] at hb
+      exact onMsg_rel h' x hb
+  | pollRising => obtain ⟨hh, hg, hn, hv, hp', hl⟩ := h; constructor <;> simp_all [Midi.stepEv, Midi.readRising, Spec.step]
+  | pollFalling => obtain ⟨hh, hg, hn, hv, hp', hl⟩ := h; constructor <;> simp_all [Midi.stepEv, Midi.readFalling, Spec.step]
+  | setRetrigger b => obtain ⟨hh, hg, hn, hv, hp', hl⟩ := h; constructor <;> simp_all [Midi.stepEv, Spec.step]
+  | setPriority p => obtain ⟨hh, hg, hn, hv, hp', hl⟩ := h; constructor <;> simp_all [Midi.stepEv, Spec.step]
+
+private theorem channel_stepEv (m : Midi) (e : MidiEv) : (m.stepEv e).1.channel = m.channel := by
+  cases e with
+  | msg x =>
+    cases x <;> simp [Midi.stepEv, Midi.handle] <;> (repeat' split) <;> simp [Midi.noteOn, Midi.noteOff, Midi.controlChange]
+  | byte b =>
+    simp only [Midi.stepEv, Midi.parse]
+    cases (parserStep m.parser b).2 with
+    | none => rfl
+    | some x => cases x <;> simp [Midi.handle] <;> (repeat' split) <;> simp [Midi.noteOn, Midi.noteOff, Midi.controlChange]
+  | _ => simp [Midi.stepEv, Midi.readRising, Midi.readFalling]
+
+private theorem run_rel {m : Midi} {s : Spec} (h : Rel m s) (es : List MidiEv)
+    (hb : Bounded m.channel m s es) : Rel (m.after es) (specAfter m.channel m s es) := by
+  induction es generalizing m s with
+  | nil => simpa [Midi.after, Midi.runEv, specAfter] using h
+  | cons e es ih =>
+    obtain ⟨hb1, hb2⟩ := hb
+    have h1 := step_rel h trivial e hb1
+    have hc := channel_stepEv m e
+    have := ih h1 (by rw [hc]; exact hb2)
+    simp only [Midi.after, Midi.runEv, specAfter] at this ⊢
+    rw [hc] at this
+    exact this
+
+theorem rel_new (ch : Nat) : Rel (Midi.new ch) {} := by
+  constructor <;> simp [Midi.new]
+
+/-- **C04, main statement.** -/
+theorem tracks (ch : Nat) (es : List MidiEv)
+    (hb : Bounded (Nat.min ch 15) (Midi.new ch) {} es) :
+    let m := (Midi.new ch).after es
+    let s := specAfter (Nat.min ch 15) (Midi.new ch) {} es
+    m.held = s.out ∧ m.gate = !s.out.isEmpty ∧ m.noteNum = s.note ∧ m.velocity = s.vel := by
+  have h := run_rel (rel_new ch) es (by simpa [Midi.new] using hb)
+  simp only [Midi.new] at h ⊢
+  exact ⟨h.held, h.gate, h.note, h.vel⟩
+
+/-! ### what "selected by the priority" means -/
+
+theorem select_last (l : List Nat) (h : l ≠ []) : select .last l = l.getLast h := by
+  simp [select, Midi.chooseFrom, List.getLast?_eq_some_getLast h]
+
+private theorem foldl_max_ge (l : List Nat) (a : Nat) : a ≤ l.foldl Nat.max a ∧ ∀ x ∈ l, x ≤ l.foldl Nat.max a := by
+  induction l generalizing a with
+  | nil => simp
+  | cons y ys ih =>
+    obtain ⟨h1, h2⟩ := ih (Nat.max a y)
+    simp only [List.foldl_cons, List.mem_cons, forall_eq_or_imp]
+    exact ⟨Nat.le_trans (Nat.le_max_left a y) h1, Nat.le_trans (Nat.le_max_right a y) h1, h2⟩
+
+private theorem foldl_max_mem (l : List Nat) (a : Nat) : l.foldl Nat.max a = a ∨ l.foldl Nat.max a ∈ l := by
+  induction l generalizing a with
+  | nil => simp
+  | cons y ys ih =>
+    simp only [List.foldl_cons, List.mem_cons]
+    rcases ih (Nat.max a y) with h | h
+    · rw [h]; rcases Nat.le_total a y with hay | hay
+      · right; left; exact Nat.max_eq_right hay
+      · left; exact Nat.max_eq_left hay
+    · right; right; exact h
+
+theorem select_high (l : List Nat) (h : l ≠ []) : select .high l ∈ l ∧ ∀ x ∈ l, x ≤ select .high l := by
+  simp only [select, Midi.chooseFrom]
+  refine ⟨?_, (foldl_max_ge l 0).2⟩
+  rcases foldl_max_mem l 0 with h0 | hm
+  · -- the maximum is 0: every element is 0, and the list is non-empty
+    cases l with
+    | nil => exact absurd rfl h
+    | cons y ys =>
+      have := (foldl_max_ge (y :: ys) 0).2 y (by simp)
+      rw [h0] at this ⊢
+      have : y = 0 := by omega
+      simp [this]
+  · exact hm
+
+private theorem foldl_min_le (l : List Nat) (a : Nat) : l.foldl Nat.min a ≤ a ∧ ∀ x ∈ l, l.foldl Nat.min a ≤ x := by
+  induction l generalizing a with
+  | nil => simp
+  | cons y ys ih =>
+    obtain ⟨h1, h2⟩ := ih (Nat.min a y)
+    simp only [List.foldl_cons, List.mem_cons, forall_eq_or_imp]
+    exact ⟨Nat.le_trans h1 (Nat.min_le_left a y), Nat.le_trans h1 (Nat.min_le_right a y), h2⟩
+
+private theorem foldl_min_mem (l : List Nat) (a : Nat) : l.foldl Nat.min a = a ∨ l.foldl Nat.min a ∈ l := by
+  induction l generalizing a with
+  | nil => simp
+  | cons y ys ih =>
+    simp only [List.foldl_cons, List.mem_cons]
+    rcases ih (Nat.min a y) with h | h
+    · rw [h]; rcases Nat.le_total a y with hay | hay
+      · left; exact Nat.min_eq_left hay
+      · right; left; exact Nat.min_eq_right hay
+    · right; right; exact h
+
+theorem select_low (l : List Nat) (h : l ≠ []) : select .low l ∈ l ∧ ∀ x ∈ l, select .low l ≤ x := by
+  cases l with
+  | nil => exact absurd rfl h
+  | cons y ys =>
+    simp only [select, Midi.chooseFrom, List.mem_cons, forall_eq_or_imp]
+    obtain ⟨h1, h2⟩ := foldl_min_le ys y
+    refine ⟨?_, h1, h2⟩
+    rcases foldl_min_mem ys y with h | h
+    · left; exact h
+    · right; exact h
+
+/-- non-vacuity: a history that satisfies `Bounded`, with three keys, a priority switch and a release -/
+example : Bounded 2 (Midi.new 2) {}
+    [.byte 0x92, .byte 60, .byte 100, .byte 64, .byte 90, .setPriority .high, .byte 62, .byte 80, .byte 64, .byte 0] := by
+  simp only [Bounded]; decide
+example : ((Midi.new 2).after
+    [.byte 0x92, .byte 60, .byte 100, .byte 64, .byte 90, .setPriority .high, .byte 62, .byte 80, .byte 64, .byte 0]).noteNum = 62 := by
+  decide
+
 end C04
